@@ -10,14 +10,16 @@ cd "$(dirname "$0")/.." || exit 2
 OUTF=${3:-seeded/RESULTS.md}
 ROOT=/tmp/opfverif-par
 rm -rf $ROOT; mkdir -p $ROOT
-ls -d seeded/$GLOB | sort > $ROOT/all
+# SEEDED_LIST=<file with one change id per line> restricts the run to those changes (e.g. the ones a died worker left over)
+if [ -n "${SEEDED_LIST:-}" ]; then sed 's#^#seeded/#' "$SEEDED_LIST" > $ROOT/all; else ls -d seeded/$GLOB | sort > $ROOT/all; fi
 i=0
 while read d; do echo "$d" >> $ROOT/list$((i % N)); i=$((i+1)); done < $ROOT/all
 for w in $(seq 0 $((N-1))); do
   (
     W=$ROOT/w$w
     mkdir -p $W
-    git -C /repo worktree add -q --detach $W/repo HEAD || exit 2
+    sleep $w      # `git worktree add` takes a lock on /repo/.git: started together, some workers lost it and died
+    git -C /repo worktree add -q --detach $W/repo HEAD || { sleep 5; git -C /repo worktree add -q --detach $W/repo HEAD; } || exit 2
     rsync -a --exclude .git --exclude evidence /verif/ $W/verif/
     cd $W/verif
     VERIF_REPO=$W/repo /venv/bin/python tools/translate.py >/dev/null 2>&1
